@@ -108,7 +108,7 @@ class W1World(World):
             'avoid_known': rng.random() < 0.8,
             'io_faults': (prop == 'C01' and rng.random() < 0.4),
             'io_fault_rate': rng.choice([0.05, 0.15, 0.3]),
-            'directed_sources': rng.random() < 0.0,
+            'p_directed': rng.choice([0.0, 0.3, 0.6]),
             'step_cap': 200,
         }
         return cfg
@@ -294,7 +294,10 @@ class W1World(World):
             if rng.random() < 0.25:
                 ep['M0'] = adv_int(rng) if rng.random() < 0.5 else adv_str(rng)
             edges.append(['n%d' % a, 'n%d' % b, ep])
-        return {'nodes': nodes, 'edges': edges}
+        d = {'nodes': nodes, 'edges': edges}
+        if rng.random() < self.cfg.get('p_directed', 0.0):
+            d['directed'] = True       # text as a directed exporter (Neo4j, yEd) writes it
+        return d
 
     def gen_step(self, rng):
         if self.steps_done >= self.cfg['steps']:
@@ -988,7 +991,7 @@ class W1World(World):
     # ---- import
     def build_text(self, desc, fmt):
         import networkx as nx
-        G = nx.Graph()
+        G = nx.DiGraph() if desc.get('directed') else nx.Graph()
         for key, p in desc['nodes']:
             G.add_node(key, **p)
         for a, z, p in desc['edges']:
